@@ -19,6 +19,6 @@ Requirements for the change:
 - It must need something SPECIFIC to manifest: a particular interleaving, a crash/fault at a particular point, a multi-step sequence of operations, an unusual input, or two cooperating sites that each look fine alone. NOT something ordinary use or the existing tests would expose at once.{(' ' + hint) if hint else ''}
 - Small (a few lines, 1-2 files), in non-test code of the repository, looking like an honest refactoring/optimisation/off-by-one/forgotten-case mistake.
 - The repository must still build (`go build ./...` in the worktree) and the EXISTING tests of every package you touched and of the packages that most directly depend on it must still pass (`go test -count=1 ./pkg/<touched>/...` plus the obvious dependants; the full suite takes very long, so choose sensibly and say exactly what you ran). If an existing test fails, pick a different change.
-- Demonstration: a NEW test file (or tiny program) that fails with your change and passes on the unchanged code; run it both ways (use `git stash` / `git stash pop` in the worktree) and report the outputs. Keep the demonstration self-contained (it may use the repository's own test helpers such as pkg/neotest).
+- Demonstration: a NEW test file (or tiny program) that fails with your change and passes on the unchanged code; run it both ways (NEVER use `git stash`: the stash is shared between all worktrees of the repository and other people work in sibling worktrees; instead `git diff -- <your non-test files> > /tmp/<unique>.diff; git apply -R /tmp/<unique>.diff; <run demo>; git apply /tmp/<unique>.diff`) and report the outputs. Keep the demonstration self-contained (it may use the repository's own test helpers such as pkg/neotest).
 
 Deliver in {wt}: the change and the demonstration as uncommitted modifications, and write these files there: `SEED_patch.diff` (git diff of the non-test change only), `SEED_demo_path.txt` (path of the demonstration file), `SEED_notes.md` (what the change is, why it breaks the property, what exactly is needed for it to manifest, the commands you ran and their results). Final answer: a 10-line summary of the same.""")
